@@ -304,7 +304,12 @@ def c02_exit_status(obs, case=None):
                 if type(c["exc"].__cause__).__name__ != "DeviceError" and not any(type(a).__name__ == "DeviceError" for a in c["exc"].args):
                     tags.append("FailedStatus-not-chained-to-device-exception")
                 continue
-            # any other exception raised by resume()/RE() is the plan's or the engine's own failure: C03/C12 judge those
+            # any other exception raised by resume()/RE(): with no fault injected and a corpus plan that never raises by
+            # itself, an interruption must surface as RunEngineInterrupted (or not at all), not as an engine-internal error
+            if getattr(obs.lab, "fault_at", None) is None and (obs.plan_end or [None])[0] != "raised":
+                tags.append(f"interruption-surfaced-as-{c['exc_type']}")
+            elif getattr(obs.lab, "fault_at", None) is None and c["exc_type"] in ("AssertionError",):
+                tags.append(f"interruption-surfaced-as-{c['exc_type']}")
     if failed and cause == "fault":
         pass
     elif cause in ("stop", "abort", "halt", "failed-pause"):
